@@ -80,6 +80,8 @@ const DEC_GRID: u64 = 801 * 6;
 const TZ_GRID: u64 = 53 * 141 * 3;
 /// 6 word sizes x 112 powers of five x 9 neighbours
 const WORD_GRID: u64 = 6 * 112 * 9;
+/// 5 anchors x 400 prefix lengths x 3 bumps
+const EDGE_GRID: u64 = 5 * 400 * 3;
 const F32_SWEEP_RUNS_THOROUGH: u64 = 65536; // x 65536 patterns = all 2^32
 const F32_SWEEP_RUNS_QUICK: u64 = 1024; // x 1024 patterns, stride 4099
 
@@ -622,6 +624,7 @@ impl Property for C14 {
             + F64_GRID
             + TZ_GRID
             + WORD_GRID
+            + EDGE_GRID
             + DEC_GRID
             + match tier {
                 Tier::Quick => 150_000,
@@ -698,6 +701,34 @@ impl Property for C14 {
             return Trace { item: Item::F64 { bits: 0x3FF0_0000_0000_0000 + r }, env: EnvSel::All, transport: 0 };
         }
         let r = r - WORD_GRID;
+        if r < EDGE_GRID {
+            // decimals hugging the edges of the f64 range at every digit count: the first k digits of the exact
+            // expansion of an anchor, with the last digit moved by -1 / 0 / +1, for k = 1..=400. Anchors: the
+            // smallest subnormal, half of it (the round-to-zero boundary), MIN_POSITIVE, MAX, and MAX plus half an
+            // ulp (the overflow boundary).
+            let bump = (r % 3) as i64 - 1;
+            let k = ((r / 3) % 400 + 1) as usize;
+            let anchor = (r / 1200) % 5;
+            let a = match anchor {
+                0 => RefDec::from_m2e(false, 1, -1074),
+                1 => RefDec::from_m2e(false, 1, -1075),
+                2 => RefDec::from_m2e(false, 1, -1022),
+                3 => RefDec::from_m2e(false, (1u64 << 53) - 1, 971),
+                _ => RefDec::from_m2e(false, (1u64 << 54) - 1, 970),
+            };
+            let full = a.int.magnitude().to_str_radix(10);
+            let le = full.len() as i128 - 1 + a.exp;
+            let k = k.min(full.len());
+            let mut p = crate::refdec::biguint_from_digits(full[..k].as_bytes());
+            if bump > 0 {
+                p += 1u32;
+            } else if bump < 0 && p > BigUint::from(1u8) {
+                p -= 1u32;
+            }
+            let scale = -(le - k as i128 + 1) as i64;
+            return Trace { item: Item::Dec { value: Dec::new((r / 7) % 2 == 1, &p.to_str_radix(10), scale) }, env: EnvSel::All, transport: (r % 7) as u8 };
+        }
+        let r = r - EDGE_GRID;
         if r < DEC_GRID {
             let k = (r / 6) as i64 - 400;
             let digits = ["1", "5", "9", "17", "123456789", "99999999999999999999999999"][(r % 6) as usize];
